@@ -3,6 +3,16 @@
 set -e
 cd "$(dirname "$0")"
 coqc -Q ../coq/Model Model -Q ../coq/Spec Spec ../coq/Extract.v > extract.log 2>&1 || { cat extract.log; exit 1; }
-ocamlfind ocamlopt -O3 -w -a -package str model.mli model.ml zarith_free.ml driver.ml -o driver 2>build.log || \
-ocamlfind ocamlopt -w -a model.mli model.ml zarith_free.ml driver.ml -o driver 2>build.log || { cat build.log; exit 1; }
+python3 - <<'PY'
+import re
+src = open('model.ml').read()
+m = re.search(r'type ttype =\n((?:\| \w+\n)+)', src)
+names = re.findall(r'\| (\w+)', m.group(1))
+with open('ttype_names.ml', 'w') as f:
+    f.write('open Model\nlet name (t : ttype) : string = match t with\n')
+    for n in names:
+        f.write('  | %s -> "%s"\n' % (n, re.sub(r"[0-9']+$", '', n)))
+PY
+ocamlfind ocamlopt -O3 -w -a -package str model.mli model.ml zarith_free.ml ttype_names.ml driver.ml -o driver 2>build.log || \
+ocamlfind ocamlopt -w -a model.mli model.ml zarith_free.ml ttype_names.ml driver.ml -o driver 2>build.log || { cat build.log; exit 1; }
 echo built
